@@ -11,3 +11,37 @@ package ledger
 //@   ensures zero: slotsPerKesPeriod == 0 ==> err != nil && !ok
 //@   ensures sig: ok ==> err == nil && slotsPerKesPeriod != 0 && kesPeriod <= slot / slotsPerKesPeriod &&
 //@       kes.VerifySignedKES(hotVkey, slot / slotsPerKesPeriod - kesPeriod, bodyCbor, signature)
+
+// C36: era dispatch. A block type is returned only when the protocol major version that was read
+// from the header lies in that era's declared range; the ranges are pairwise disjoint, so the type is unique.
+//@ func inProtocolRange(protoMajor, min, max) (r)
+//@   props C36
+//@   pure
+//@   ensures def: r <==> min <= protoMajor && protoMajor <= max
+
+//@ func DetermineBlockType(headerCbor) (t, err)
+//@   props C36
+//@   attr trackcalls on
+//@   ensures consistent: err == nil ==> called(inProtocolRange) && callres(inProtocolRange) &&
+//@       ((t == BlockTypeShelley && callarg(inProtocolRange, 1) == shelley.MinProtocolVersionShelley && callarg(inProtocolRange, 2) == shelley.MaxProtocolVersionShelley) ||
+//@        (t == BlockTypeAllegra && callarg(inProtocolRange, 1) == allegra.MinProtocolVersionAllegra && callarg(inProtocolRange, 2) == allegra.MaxProtocolVersionAllegra) ||
+//@        (t == BlockTypeMary && callarg(inProtocolRange, 1) == mary.MinProtocolVersionMary && callarg(inProtocolRange, 2) == mary.MaxProtocolVersionMary) ||
+//@        (t == BlockTypeAlonzo && callarg(inProtocolRange, 1) == alonzo.MinProtocolVersionAlonzo && callarg(inProtocolRange, 2) == alonzo.MaxProtocolVersionAlonzo) ||
+//@        (t == BlockTypeBabbage && callarg(inProtocolRange, 1) == babbage.MinProtocolVersionBabbage && callarg(inProtocolRange, 2) == babbage.MaxProtocolVersionBabbage) ||
+//@        (t == BlockTypeConway && callarg(inProtocolRange, 1) == conway.MinProtocolVersionConway && callarg(inProtocolRange, 2) == conway.MaxProtocolVersionConway) ||
+//@        (t == BlockTypeDijkstra && callarg(inProtocolRange, 1) == dijkstra.MinProtocolVersionDijkstra && callarg(inProtocolRange, 2) == dijkstra.MaxProtocolVersionDijkstra))
+
+//@ lemma era_ranges_disjoint: shelley.MaxProtocolVersionShelley < allegra.MinProtocolVersionAllegra &&
+//@     allegra.MaxProtocolVersionAllegra < mary.MinProtocolVersionMary &&
+//@     mary.MaxProtocolVersionMary < alonzo.MinProtocolVersionAlonzo &&
+//@     alonzo.MaxProtocolVersionAlonzo < babbage.MinProtocolVersionBabbage &&
+//@     babbage.MaxProtocolVersionBabbage < conway.MinProtocolVersionConway &&
+//@     conway.MaxProtocolVersionConway < dijkstra.MinProtocolVersionDijkstra &&
+//@     shelley.MinProtocolVersionShelley <= shelley.MaxProtocolVersionShelley &&
+//@     allegra.MinProtocolVersionAllegra <= allegra.MaxProtocolVersionAllegra &&
+//@     mary.MinProtocolVersionMary <= mary.MaxProtocolVersionMary &&
+//@     alonzo.MinProtocolVersionAlonzo <= alonzo.MaxProtocolVersionAlonzo &&
+//@     babbage.MinProtocolVersionBabbage <= babbage.MaxProtocolVersionBabbage &&
+//@     conway.MinProtocolVersionConway <= conway.MaxProtocolVersionConway &&
+//@     dijkstra.MinProtocolVersionDijkstra <= dijkstra.MaxProtocolVersionDijkstra
+//@   props C36
